@@ -61,6 +61,8 @@ class Note(object):
         """
         if dynamics is None:
             dynamics = {}
+        else:
+            dynamics = dict(dynamics)
 
         if velocity is not None:
             dynamics["velocity"] = velocity
